@@ -97,11 +97,11 @@ def r073(ctx):
         tbl = {}
         for a in g['arms']:
             for alt in H.pat_alternatives(a['pat']):
-                tbl[panics.variant_of(H.pat_term(alt))] = H.term(a['body'])
+                tbl[panics.variant_of(H.pat_term(alt))] = H.term(a['body']).strip('{};')  # `{ return x; }` and `return x` are one body
         site = ctx.site(D.PROCESS, g)
         r.eq('Steady', tbl.get('Steady'), 'ch0_slot', site)
         r.eq('ClientException', tbl.get('ClientException'), 'return Ok(())', site, why='after a client exception further frames are ignored')
-        fu = '{return errors::FrameUnexpectedSnafu::fail(errors::FrameUnexpectedSnafu)}'
+        fu = 'return errors::FrameUnexpectedSnafu::fail(errors::FrameUnexpectedSnafu)'
         r.eq('ServerClosing', tbl.get('ServerClosing'), fu, site)
         r.eq('ClientClosed', tbl.get('ClientClosed'), fu, site)
         # the gate dominates the frame match
